@@ -11,10 +11,20 @@ import (
 	"github.com/boombuler/barcode"
 )
 
-// Ref is the colour reference a barcode's pixels are classified against.
+// Ref is the colour reference a barcode's pixels are classified against: background, foreground, for scaled
+// barcodes the fill colours of the chain of Scale calls that produced it, and then any further colour met
+// while projecting (so that every distinct colour keeps a stable class number along a chain).
 type Ref struct {
-	Fg, Bg color.Color
-	Fill   color.Color // nil when not a scaled barcode
+	List *[]color.Color
+}
+
+func NewRef(fg, bg color.Color) Ref { return Ref{List: &[]color.Color{bg, fg}} }
+
+// With returns a copy of the reference extended by one more fill colour.
+func (r Ref) With(fill color.Color) Ref {
+	l := append([]color.Color{}, (*r.List)...)
+	l = append(l, fill)
+	return Ref{List: &l}
 }
 
 func ColorString(c color.Color) string {
@@ -48,26 +58,19 @@ func ModelString(m color.Model) string {
 	return "other"
 }
 
-// Classify: 1 = foreground, 0 = background, 3 = fill (only if distinct from both), 2 = anything else.
+// Classify returns the index of the first reference colour equal to c (0 = background, 1 = foreground,
+// 2.. = fill colours / further colours in order of appearance); unknown colours are appended (99 after 60 of them).
 func Classify(c color.Color, r Ref) int {
-	if c == r.Fg {
-		return 1
+	for i, x := range *r.List {
+		if c == x {
+			return i
+		}
 	}
-	if c == r.Bg {
-		return 0
+	if len(*r.List) >= 60 {
+		return 99
 	}
-	if r.Fill != nil && c == r.Fill {
-		return 3
-	}
-	return 2
-}
-
-// FillCode is the class a fill pixel gets under Classify.
-func FillCode(r Ref) int {
-	if r.Fill == nil {
-		return -1
-	}
-	return Classify(r.Fill, r)
+	*r.List = append(*r.List, c)
+	return len(*r.List) - 1
 }
 
 func bytesToInts(b []byte) []int {
@@ -79,9 +82,9 @@ func bytesToInts(b []byte) []int {
 }
 
 // Project returns the full observable state of bc. mode: "full" (pixels), "digest" (sha256 of pixels), "outcome" (no pixels).
-func Project(bc barcode.Barcode, r Ref, mode string) map[string]interface{} {
+func Project(bc barcode.Barcode, r Ref, mode string) (res map[string]interface{}) {
 	b := bc.Bounds()
-	res := map[string]interface{}{
+	res = map[string]interface{}{
 		"kind": "ok",
 		"minx": b.Min.X, "miny": b.Min.Y, "w": b.Dx(), "hh": b.Dy(),
 		"content": bytesToInts([]byte(bc.Content())),
@@ -108,10 +111,15 @@ func Project(bc barcode.Barcode, r Ref, mode string) map[string]interface{} {
 		res["sbg"] = ""
 		res["smodel"] = ""
 	}
-	res["fillcode"] = FillCode(r)
-	res["reffg"] = ColorString(r.Fg)
-	res["refbg"] = ColorString(r.Bg)
-	res["reffill"] = ColorString(r.Fill)
+	nref := len(*r.List)
+	defer func() {
+		rl := make([]string, len(*r.List))
+		for i, c := range *r.List {
+			rl[i] = ColorString(c)
+		}
+		res["reflist"] = rl
+		res["nref"] = nref // colours known before this projection (background, foreground, fills)
+	}()
 	if mode == "outcome" {
 		return res
 	}
